@@ -576,11 +576,12 @@ def is_registered(
         # the registry lookup: a deferred printer is always the most recent
         # registration for its class.
         deferred_key = get_deferred_key(type)
-        if deferred_key in _DEFERRED_DISPATCH_BY_NAME:
+        deferred_dispatch = _DEFERRED_DISPATCH_BY_NAME.get(deferred_key)
+        if deferred_dispatch is not None:
             if register_deferred:
-                deferred_dispatch = _DEFERRED_DISPATCH_BY_NAME.pop(
-                    deferred_key
-                )
+                # Registers the printer first and only then drops the
+                # deferred entry, so that a concurrent print always finds
+                # the printer in one of the two places.
                 register_pretty(type)(deferred_dispatch)
             return True
 
@@ -594,11 +595,9 @@ def is_registered(
         # Check deferred printers for supertypes.
         for supertype in type.__mro__[1:]:
             deferred_key = get_deferred_key(supertype)
-            if deferred_key in _DEFERRED_DISPATCH_BY_NAME:
+            deferred_dispatch = _DEFERRED_DISPATCH_BY_NAME.get(deferred_key)
+            if deferred_dispatch is not None:
                 if register_deferred:
-                    deferred_dispatch = _DEFERRED_DISPATCH_BY_NAME.pop(
-                        deferred_key
-                    )
                     register_pretty(supertype)(deferred_dispatch)
                 return True
     return pretty_dispatch.dispatch(type) is not _BASE_DISPATCH
